@@ -19,34 +19,45 @@ js_fs G_fs; unsigned G_renames; bool G_tmp_data; bool G_tmp_opened; bool G_dump_
 typedef struct { int v; } iora_ec;
 #define iora_ec_DEFAULT ((iora_ec){0})
 typedef struct { int _filename; bool _dirty; int _mutex; int _store; } JsonFileStore;
-typedef struct { bool open; bool failed; int path; } js_ofs;
-/* ofstream(path [, trunc]): opening may fail (file untouched), success truncates */
+/* std::ofstream with the real iostate bits:  fail() == badbit || failbit,  bad() == badbit,  good()/operator bool == neither.
+ *   open failure               -> failbit
+ *   operator<< write fault     -> badbit (nondet)
+ *   close() / flush(): the final write of what is still buffered fails -> FAILBIT ONLY (libstdc++ basic_ofstream::close: setstate(failbit)) - nondet
+ * What the clauses speak about is the GHOST state (G_tmp_data: whole dump accepted; G_fs.tmp == TMP_COMPLETE: accepted AND closed without error), never which accessor the code calls. */
+typedef struct { bool open; bool badbit; bool failbit; int path; } js_ofs;
+#define JS_FAILED(s) ((s)->badbit || (s)->failbit)
 static inline js_ofs js_ofs_ctor(int path, int mode)
 {
-  js_ofs s; s.path = path; s.failed = false; (void)mode;
+  js_ofs s; s.path = path; s.badbit = false; s.failbit = false; (void)mode;
   JS_CRASH_POINT();
-  if (nondet_bool()) { s.open = false; s.failed = true; return s; }
+  if (nondet_bool()) { s.open = false; s.failbit = true; return s; }
   s.open = true;
   if (path == JS_PATH_TMP) { G_fs.tmp = TMP_PARTIAL; G_tmp_data = false; G_tmp_opened = true; }
   else { IORA_ASSERT(0, "LIVE the live file is never opened for truncation (it is only ever replaced by rename)"); G_fs.live = LIVE_TORN; }
   JS_CRASH_POINT();
   return s;
 }
-static inline bool js_ofs_ok(const js_ofs *s) { return s->open && !s->failed; }
-static inline bool js_ofs_fail(const js_ofs *s) { return s->failed; }
-static inline bool js_ofs_good(const js_ofs *s) { return s->open && !s->failed; }
+static inline bool js_ofs_ok(const js_ofs *s) { return !JS_FAILED(s); }            /* if (file) */
+static inline bool js_ofs_fail(const js_ofs *s) { return JS_FAILED(s); }
+static inline bool js_ofs_bad(const js_ofs *s) { return s->badbit; }
+static inline bool js_ofs_good(const js_ofs *s) { return !JS_FAILED(s); }
 static inline bool js_ofs_is_open(const js_ofs *s) { return s->open; }
 /* Json::dump: may throw (bad_alloc): the handle of the serialised text */
 static inline int js_dump(const JsonFileStore *self) { (void)self; if (nondet_bool()) { iora_exc = EXC_exception; G_dump_threw = true; return 0; } return 1; }
-/* file << data: bytes go to the stream buffer / the temporary; may fail; a live-file stream getting data = partially rewritten */
+/* file << data: a stream already in a failed state accepts nothing; otherwise the bytes go to the stream buffer / the temporary, or the write faults (badbit) */
 static inline void js_ofs_put(js_ofs *s, int data)
-{ (void)data; if (!s->open) s->failed = true; if (!s->failed && nondet_bool()) s->failed = true;
-  if (s->path == JS_PATH_LIVE && s->open) { G_fs.live = LIVE_TORN; } else if (!s->failed) G_tmp_data = true; }
+{ (void)data; if (!s->open) s->failbit = true;
+  if (!JS_FAILED(s) && nondet_bool()) s->badbit = true;
+  if (s->path == JS_PATH_LIVE && s->open) { G_fs.live = LIVE_TORN; } else if (!JS_FAILED(s)) G_tmp_data = true; }
+/* flush()/the flush inside close(): the buffered bytes reach the OS, or the final write fails -> failbit only */
 static inline void js_ofs_flush(js_ofs *s)
-{ JS_CRASH_POINT(); if (!s->open) s->failed = true; if (!s->failed && nondet_bool()) s->failed = true;
-  if (!s->failed && s->path == JS_PATH_TMP && G_tmp_data) G_fs.tmp = TMP_COMPLETE; JS_CRASH_POINT(); }
-/* close(): flushes what is buffered (may fail -> failbit), then closes */
-static inline void js_ofs_close(js_ofs *s) { if (!s->open) { s->failed = true; return; } js_ofs_flush(s); s->open = false; }
+{ JS_CRASH_POINT(); if (!s->open) s->failbit = true;
+  bool wrote = !s->badbit && s->open && !nondet_bool();             /* a stream with badbit has lost data already */
+  if (s->open && !s->badbit && !wrote) s->failbit = true;
+  if (wrote && !s->failbit && s->path == JS_PATH_TMP && G_tmp_data) G_fs.tmp = TMP_COMPLETE;
+  JS_CRASH_POINT(); }
+/* close(): flushes what is buffered (may fail -> failbit), then closes; close() on a closed stream -> failbit */
+static inline void js_ofs_close(js_ofs *s) { if (!s->open) { s->failbit = true; return; } js_ofs_flush(s); s->open = false; }
 static inline void js_fs_rename(int from, int to, iora_ec *ec)
 {
   IORA_ASSERT(from == JS_PATH_TMP && to == JS_PATH_LIVE, "ghost: the only rename is temporary -> live file");
